@@ -46,7 +46,8 @@ class SimRun(Engine):
             "preconditions with quantifiers and interpreted functions, 1-4 assign/increase/decrease effects that may be "
             "conditional or forall, optional simulated effect; 0-2 state invariants; goals) + 15-60 queries on ONE "
             "simulator instance over a growing pool of states (apply, is_applicable, get_applicable_actions, is_goal, "
-            "get_unsatisfied_goals, full read, hash, ==; queries also through ActionInstance / a cloned action / expression parameters), "
+            "get_unsatisfied_goals, full read, hash, ==; queries also through ActionInstance / a cloned action / expression parameters; "
+            "30% of the get_applicable_actions iterators advanced 0-2 items, suspended for the next 1-4 queries, then drained), "
             "~30% re-asked later, under ancestor limit in {1,2,3,20,None}; in half of the worlds that have an interpreted function, "
             "1-3 queries during which that function raises at its n-th call (not judged themselves; everything after them is). "
         )
